@@ -580,8 +580,10 @@ func e2eStream(o *Out, rng *rand.Rand, n int) {
 			rng.Read(ihs[i])
 		}
 		var pastClocks []int64
-		srcs := [][]byte{{192, 0, 2, 7}, {10, 0, 0, 1}, net.ParseIP("2001:db8::1"), net.ParseIP("2001:db8::2"), net.ParseIP("::ffff:192.0.2.9"), {127, 0, 0, 1}}
-		remotes := []string{"192.0.2.7:6881", "10.0.0.1:5", "[2001:db8::1]:6881", "[2001:db8::2]:9", "[::ffff:192.0.2.9]:443", "127.0.0.1:1"}
+		srcs := [][]byte{{192, 0, 2, 7}, {10, 0, 0, 1}, net.ParseIP("2001:db8::1"), net.ParseIP("2001:db8::2"), net.ParseIP("::ffff:192.0.2.9"), {127, 0, 0, 1},
+			net.ParseIP("64:ff9b::c633:6404"), net.ParseIP("2002:c633:6404::1")} // (IPv6 prefixes that embed an IPv4 address stay IPv6)
+		remotes := []string{"192.0.2.7:6881", "10.0.0.1:5", "[2001:db8::1]:6881", "[2001:db8::2]:9", "[::ffff:192.0.2.9]:443", "127.0.0.1:1",
+			"[64:ff9b::c633:6404]:6881", "[2002:c633:6404::1]:6881"}
 		var peers []e2ePeer
 		for i := 0; i < 5; i++ {
 			id := make([]byte, 20)
@@ -727,7 +729,7 @@ func e2eStream(o *Out, rng *rand.Rand, n int) {
 					uri += fmt.Sprintf("&numwant=%d", nw)
 				}
 				if rng.Intn(6) == 0 {
-					uri += "&ip=" + []string{"198.51.100.4", "2001:db8::99", "garbage", "::ffff:198.51.100.5"}[rng.Intn(4)]
+					uri += "&ip=" + []string{"198.51.100.4", "2001:db8::99", "garbage", "::ffff:198.51.100.5", "64:ff9b::c633:6405", "::198.51.100.6"}[rng.Intn(6)]
 				}
 				if rng.Intn(6) == 0 {
 					// the other spellings an address can be supplied under (honoured only with allow_ip_spoofing, and then
@@ -739,7 +741,7 @@ func e2eStream(o *Out, rng *rand.Rand, n int) {
 				}
 				rq := eReq{T: "hann", URI: hx([]byte(uri)), Remote: remotes[ri]}
 				if rng.Intn(4) == 0 {
-					rq.HdrVal = []string{"203.0.113.9", "2001:db8::77", "garbage"}[rng.Intn(3)]
+					rq.HdrVal = []string{"203.0.113.9", "2001:db8::77", "garbage", "64:ff9b::cb00:7109"}[rng.Intn(4)]
 				}
 				reqs = append(reqs, rq)
 			case r < 86: // HTTP scrape
